@@ -1,4 +1,4 @@
-import PdshVerif.Opt.SourceLemmas
+import PdshVerif.Opt.WcollSources
 import PdshVerif.Opt.WcollSpec
 
 /-! the reader refines the specification on well-formed files whose lines fit the buffer -/
